@@ -496,7 +496,7 @@ func (m *Machine) convert(from, to types.Type, v Value) Value {
 				}
 				if x, ok := v.(*sym.Str); ok {
 					// symbolic strings are ASCII (every class of vxStr is): one rune per byte
-					n := int(m.Concretize(x.Len, false))
+					n := m.decideLen(x)
 					r := make(Slice, n)
 					for i := 0; i < n; i++ {
 						r[i] = m.normScalar(c.Zext(x.Ch[i], 32))
